@@ -511,9 +511,10 @@ func init() {
 	Registry["C15"] = func(c *engine.Ctx) {
 		c.Level = "model_checking"
 		c.Rule = "clean reopen: state = canonical snapshot reached by a C02 history on a persistent backend (bolt file, multi/single fs on a real directory with on-disk metadata; MemMapFs variants with a fresh backend object); in every state the backend is closed and reconstructed on the same storage and must show the same buckets, keys, bodies, sizes, ETags and metadata and agree with the model. kill: for every history of <= n operations (put small, put 40 KiB, overwrite, copy, delete, multi-delete, create/delete bucket) the storage image before every storage mutation (and between the 4 KiB pieces of larger writes; for bolt: before every page write) is reopened with the real backend and must equal the model state before or after the operation in flight; distinct_nontrivial counts distinct canonical states plus crash images taken inside an operation"
-		c.Assumptions = append(c.Assumptions, "process-kill model: the OS survives, so the persistent state is exactly the storage mutations issued so far, torn at 4 KiB granularity; no dropped or reordered unsynced blocks", "the real cmd/gofakes3 binary is not killed at random instants (sampling); the enumerated images are what such kills can leave behind under this model")
+		c.Assumptions = append(c.Assumptions, "wiring conformance: the real cmd/gofakes3 binary (built from the working tree) is started on the loopback interface for bolt, fs, fs+meta, directfs+meta, killed with SIGKILL after every prefix of a fixed 5-operation history and restarted on the same storage; this binds the in-process worlds to the flag wiring, it is not a sampling of kill instants", "process-kill model: the OS survives, so the persistent state is exactly the storage mutations issued so far, torn at 4 KiB granularity; no dropped or reordered unsynced blocks", "the real cmd/gofakes3 binary is not killed at random instants (sampling); the enumerated images are what such kills can leave behind under this model")
 		runC15Reopen(c)
 		runC15Crash(c)
+		runC15Binary(c)
 	}
 	SubCommands["c15crash"] = c15CrashSub
 }
